@@ -54,6 +54,9 @@ impl World for MutexWorld {
     fn id(&self) -> u8 {
         1
     }
+    fn shared_wakers(&self) -> bool {
+        true
+    }
     fn name(&self) -> &'static str {
         "mutex"
     }
@@ -65,7 +68,7 @@ impl World for MutexWorld {
         let mut v = Vec::new();
         for flavour in [FL_LOCAL, FL_SYNC, FL_CHECKED] {
             for mode in [0u8, 1] {
-                v.push(Cfg { flavour, mode, x: 0, y: 0, k });
+                v.push(Cfg { flavour, mode, x: 0, y: 0, k, sw: 0 });
             }
         }
         v
@@ -75,7 +78,7 @@ impl World for MutexWorld {
         let k = 3;
         let _ = tier;
         for mode in [0u8, 1] {
-            v.push((Cfg { flavour: FL_CHECKED, mode, x: 0, y: 0, k }, 64));
+            v.push((Cfg { flavour: FL_CHECKED, mode, x: 0, y: 0, k, sw: 0 }, 64));
         }
         v
     }
@@ -126,6 +129,7 @@ fn next_where<F>(slots: &[Slot<F>], start: u8, pred: impl Fn(&Slot<F>) -> bool) 
 
 fn run_m<M: RawMutex>(cfg: &Cfg, ops: &[Op], run: &mut Run) {
     tls::reset_history();
+    tls::set_shared_b(cfg.sw == 1);
     let fair = cfg.mode == 1;
     let mutex: GenericMutex<M, u64> = GenericMutex::new(0, fair);
     let k = cfg.k as usize;
